@@ -35,8 +35,8 @@ def _new_grid(dim):
     return g
 
 
-def _new_mortar(dim):
-    return pp.MortarGrid(dim, {MortarSides.LEFT_SIDE: _template(dim)})
+def _new_mortar(dim, codim=1):
+    return pp.MortarGrid(dim, {MortarSides.LEFT_SIDE: _template(dim)}, codim=codim)
 
 
 # ------------------------------------------------------------------------------------
@@ -99,6 +99,12 @@ def _obs(x):
         _l(x["sd_intfs"], lambda p: f"SI {_g(p[0])} {_resl(p[1])}"),
         _l(x["sd_bg"], lambda p: f"SB {_g(p[0])} "
                                  + ("NoG" if p[1] is None else f"(SomeG {_g(p[1])})")),
+        _resl(x["bounds"]),
+        _l(x["bounds_dim"], lambda p: f"DR {p[0]} {_resl(p[1])}"),
+        _l(x["int_cd"], lambda p: "CD " + ("None" if p[0] is None else f"(Some {p[0]})")
+                                  + f" {p[1]} {_resl(p[2])}"),
+        _l(x["neigh"], lambda p: f"NB {_g(p[0])} {'true' if p[1] else 'false'} "
+                                 f"{'true' if p[2] else 'false'} {_resl(p[3])}"),
     ]
     return "(mkobs " + " ".join(parts) + ")"
 
@@ -118,16 +124,16 @@ class Spec:
         S, I = self.S, self.I
         if k == "add":
             l = [tuple(g) for g in o[1]]
-            if any(g in S for g in l):
+            if any(g in S for g in l) or len(set(l)) != len(l):
                 return "rej"
-            return "ok" if len(set(l)) == len(l) else "out"
+            return "ok"
         if k == "intf":
             i, a, b = tuple(o[1]), tuple(o[2]), tuple(o[3])
             if i in I:
                 return "rej"
             if abs(a[0] - b[0]) >= 3:
                 return "rej"
-            if a not in S or b not in S or a == b:
+            if a not in S or b not in S:
                 return "out"
             if i[0] > min(a[0], b[0]):
                 return "out"
@@ -174,8 +180,8 @@ class C24(Prop):
     id = "C24"
     props_file = "Props/C24.v"
     preamble = ("From Coq Require Import List.\nImport ListNotations.\n"
-                "From PP Require Import Model.C24.\n")
-    n_cases = (300, 4000)
+                "From PP Require Import Model.C24 Model.C24_data.\n")
+    n_cases = (200, 3000)
     design_ref = "DESIGN.md §5 C24"
     level_text = (
         "Coq theorems over an executable transcription of MixedDimensionalGrid's five "
@@ -183,46 +189,59 @@ class C24(Prop):
         "replace_subdomains_and_interfaces / argsort_grids and the query methods: for EVERY "
         "history (any length) whose calls are either well-formed or of a kind the code must "
         "reject, no well-formed call raises, rejected calls raise and leave the container "
-        "untouched, and after the history subdomains()/interfaces() (also with a dim filter) "
-        "list exactly the grids that should be present, once each, by decreasing dimension "
-        "then creation id; every interface maps to its (higher, lower / smaller-id) pair and "
-        "both orders of the pair map back to it; subdomain_to_interfaces is exact; every "
-        "positive-dimensional subdomain has exactly one boundary grid of its own, 0-d ones "
-        "none, no orphans; remove_subdomain deletes exactly the subdomain, its interfaces and "
-        "its boundary grid. The model is tied to the code on every run by executing both on "
-        "random histories (well-formed, rejected and ill-formed calls) and letting Coq compare "
-        "the outcome, the raw dictionaries and all query results after every call.")
+        "untouched, and after the history subdomains()/interfaces() (with dim and codim "
+        "filters) and boundaries() list exactly the grids that should be present, once each, "
+        "by decreasing dimension then creation id; every interface (also one coupling a "
+        "subdomain with itself) maps to its (higher, lower / smaller-id) pair and both orders "
+        "of the pair map back to it; subdomain_to_interfaces and neighboring_subdomains are "
+        "exact; every positive-dimensional subdomain has exactly one boundary grid of its own, "
+        "0-d ones none, no orphans; remove_subdomain deletes exactly the subdomain, its "
+        "interfaces and its boundary grid; every present subdomain/interface has a data "
+        "dictionary of its own and replacement hands the old grid's dictionaries on to the new "
+        "grid. The model is tied to the code on every run by executing both on random "
+        "histories (well-formed, rejected and ill-formed calls) and letting Coq compare the "
+        "outcome of every call and, on every third call, after errors and at the end, the raw "
+        "dictionaries (key order), the identity of every data dictionary and all query results.")
     level_note = (
         "Well-formed means: added grids are new and distinct; an interface is new, joins two "
-        "distinct present subdomains not yet joined, its dimension does not exceed either "
-        "neighbour's, co-dimension <= 2; removed/replaced subdomains are present; a replacement "
-        "grid is new and of the same dimension. Outside this (self-coupled interfaces, "
-        "duplicate grids in one add call, interfaces to absent subdomains ...) nothing is "
-        "proved; the model still transcribes the code there and the tie exercises it (e.g. "
-        "removing the last subdomain while it carries a self-coupled interface raises "
-        "AssertionError after partial mutation). Trusted: Coq kernel + vm_compute; the harness; "
-        "Python dict semantics (insertion order, identity hashing) as modelled by association "
-        "lists; grid ids = creation order. MortarGrid.update_mortar/update_primary/"
-        "update_secondary (geometric projection updates, subject of C26) are replaced by no-ops "
-        "during the tie; data dictionaries attached to grids are not modelled; the codim filter "
-        "of interfaces() and neighboring_subdomains/boundaries() are not modelled. The theorems "
-        "are about the model; the implementation is covered on the generated histories only.")
+        "present subdomains (possibly the same one) not yet joined, its dimension does not "
+        "exceed either neighbour's, co-dimension <= 2; removed/replaced subdomains are present; "
+        "a replacement grid is new and of the same dimension. Rejected kinds: a present grid or "
+        "one grid twice in add_subdomains, an existing interface, co-dimension > 2, an absent "
+        "subdomain removed/replaced. Outside this (interfaces to absent subdomains or of too "
+        "high dimension, a second interface between the same pair, replacement by a present "
+        "or other-dimensional grid) nothing is proved; the model still transcribes the code "
+        "there, error branches and partial mutations included, and the tie exercises it. "
+        "boundaries() raises ValueError when all subdomains are 0-d (documented behaviour, "
+        "proved as such). For boundary-grid dictionaries only the hand-over at replacement is "
+        "proved (in terms of the creation number of the new boundary grid); that every "
+        "boundary grid has a dictionary of its own after any history is covered by tie and "
+        "oracle only. Trusted: Coq kernel + vm_compute; the harness; Python dict semantics "
+        "(insertion order, identity hashing) as modelled by association lists; grid ids = "
+        "creation order; dictionary identity = creation order of the dict objects. "
+        "MortarGrid.update_mortar/update_primary/update_secondary (geometric projection "
+        "updates, subject of C26) are replaced by no-ops during the tie. The theorems are about "
+        "the model; the implementation is covered on the generated histories only.")
     technique = ("Coq proof (invariant + refinement of an abstract container by induction over "
                  "histories) + vm_compute execution correspondence")
     rule = ("random histories (<=40 ops quick, <=100 thorough) on a real "
             "pp.MixedDimensionalGrid over a pool of <=12 tiny subdomain grids (dims 0-3) and "
-            "<=12 mortar grids (dims 0-2) created in pool order, added in random order; ~80% "
-            "well-formed calls, the rest rejected/ill-formed calls (present grid added again, "
-            "duplicates in one call, existing interface, co-dimension 3, absent or identical "
-            "neighbours, absent removal, replacement by present / other-dimensional grid, "
-            "multi-entry and empty maps); non-trivial = at least one interface added and one "
-            "removal or replacement carried out; distinct by (case, output)")
+            "<=12 mortar grids (dims 0-2, codim attribute 0-2) created in pool order, added in "
+            "random order, removed grids re-added; ~80% well-formed calls incl. self-coupled "
+            "interfaces, the rest rejected/ill-formed calls (present grid added again, "
+            "duplicates in one call, existing interface, co-dimension 3, absent neighbours, "
+            "second interface on a pair, absent removal, replacement by present / "
+            "other-dimensional grid, multi-entry and empty maps); queries after every call: "
+            "subdomains/interfaces (rotating dim and codim filters), boundaries, pair maps both "
+            "ways, subdomain_to_interfaces, neighboring_subdomains (rotating flags incl. both), "
+            "boundary-grid map, data-dictionary identities; non-trivial = at least one interface "
+            "added and one removal or replacement carried out; distinct by (case, output)")
     trusted = ["tiny Cartesian/point grids stand for arbitrary grids (the container only reads "
-               "dim and id)",
+               "dim, id and codim)",
                "MortarGrid.update_* replaced by no-ops from the harness while the container "
                "methods run"]
     assumptions = ["histories are sequences of calls that are well-formed or of a rejected kind "
-                   "(see level_note); ill-formed calls are outside the theorems"]
+                   "(see level_note); other ill-formed calls are outside the theorems"]
 
     # ------------------------------------------------------------------ generator
     def generate(self, rng, n, tier):
@@ -236,6 +255,7 @@ class C24(Prop):
         prof = rng.choice([[0, 1, 2, 3], [0, 1, 2, 3], [1, 2], [0, 1], [2, 3], [0, 3, 1]])
         sd_dims = [rng.choice(prof) for _ in range(nsd)]
         mg_dims = [rng.choice([0, 0, 1, 1, 2]) for _ in range(nmg)]
+        mg_codims = [rng.choice([1, 1, 1, 2, 0]) for _ in range(nmg)]
         sd = lambda i: [sd_dims[i], i]
         mg = lambda i: [mg_dims[i], i]
         spec = Spec()
@@ -257,6 +277,8 @@ class C24(Prop):
                     o = ["add", [sd(unused_sd.pop()) for _ in range(k)]]
                 elif r < 0.6 and unused_mg and len(S) >= 2:
                     a, b = rng.sample(S, 2)
+                    if rng.random() < 0.12:
+                        b = a                      # a subdomain coupled to itself
                     cands = [i for i in unused_mg if mg_dims[i] <= min(a[0], b[0])]
                     if cands and abs(a[0] - b[0]) < 3 and not any(
                             set(p) == {tuple(a), tuple(b)} for p in spec.I.values()):
@@ -303,7 +325,7 @@ class C24(Prop):
             # grids removed from the md-grid may be added again later
             if o[0] == "rm" and cls == "ok" and rng.random() < 0.5:
                 unused_sd.insert(rng.randint(0, len(unused_sd)), o[1][1])
-        return {"sd_dims": sd_dims, "mg_dims": mg_dims, "ops": ops}
+        return {"sd_dims": sd_dims, "mg_dims": mg_dims, "mg_codims": mg_codims, "ops": ops}
 
     def _bad_op(self, rng, spec, sd, mg, nsd, nmg, unused_sd):
         S = [list(g) for g in spec.S]
@@ -354,7 +376,8 @@ class C24(Prop):
     def run_impl(self, case):
         sd_dims, mg_dims = case["sd_dims"], case["mg_dims"]
         sd_pool = [_new_grid(d) for d in sd_dims]
-        mg_pool = [_new_mortar(d) for d in mg_dims]
+        mg_codims = case.get("mg_codims") or [1] * len(mg_dims)
+        mg_pool = [_new_mortar(d, c) for d, c in zip(mg_dims, mg_codims)]
         assert all(a.id < b.id for a, b in zip(sd_pool, sd_pool[1:]))
         assert all(a.id < b.id for a, b in zip(mg_pool, mg_pool[1:]))
         sd_of = {id(g): [sd_dims[i], i] for i, g in enumerate(sd_pool)}
@@ -374,6 +397,15 @@ class C24(Prop):
         sds = lambda l: [sd_of[id(g)] for g in l]
         mgs = lambda l: [mg_of[id(g)] for g in l]
 
+        tok = {}          # id(data dict) -> creation index; dicts kept alive below
+        keep = []
+
+        def see(dicts):
+            for dd in dicts:
+                if id(dd) not in tok:
+                    tok[id(dd)] = len(tok)
+                    keep.append(dd)
+
         saved = (pp.MortarGrid.update_mortar, pp.MortarGrid.update_primary,
                  pp.MortarGrid.update_secondary)
         pp.MortarGrid.update_mortar = lambda self, *a, **k: None
@@ -392,14 +424,36 @@ class C24(Prop):
                         raise RuntimeError("harness: duplicate keys in a replacement map")
                 try:
                     if k == "add":
-                        mdg.add_subdomains([sd_pool[g[1]] for g in o[1]])
+                        arg = [sd_pool[g[1]] for g in o[1]]
+                        form = len(steps) % 3     # list / bare grid / tuple
+                        try:
+                            if form == 1 and len(arg) == 1:
+                                mdg.add_subdomains(arg[0])
+                            elif form == 2:
+                                mdg.add_subdomains(tuple(arg))
+                            else:
+                                mdg.add_subdomains(arg)
+                        finally:
+                            arg.clear()           # aliasing probe
                     elif k == "intf":
-                        mdg.add_interface(mg_pool[o[1][1]],
-                                          (sd_pool[o[2][1]], sd_pool[o[3][1]]), None)
+                        pair = [sd_pool[o[2][1]], sd_pool[o[3][1]]]
+                        try:
+                            mdg.add_interface(mg_pool[o[1][1]],
+                                              pair if len(steps) % 2 else tuple(pair), None)
+                        finally:
+                            pair.clear()          # aliasing probe
                     elif k == "rm":
                         mdg.remove_subdomain(sd_pool[o[1][1]])
                     elif k == "rep":
-                        mdg.replace_subdomains_and_interfaces(sd_map=sm, interface_map=im)
+                        try:
+                            if not im and len(steps) % 2:
+                                mdg.replace_subdomains_and_interfaces(sm)
+                            else:
+                                mdg.replace_subdomains_and_interfaces(sd_map=sm,
+                                                                      interface_map=im)
+                        finally:
+                            sm.clear()            # aliasing probe
+                            im.clear()
                     else:
                         raise RuntimeError(k)
                 except tuple(ERR) as e:
@@ -441,6 +495,29 @@ class C24(Prop):
                 for s in present + absent_s:
                     b = mdg.subdomain_to_boundary_grid(s)
                     x["sd_bg"].append([sd_of[id(s)], None if b is None else bgid(b)])
+                see(mdg._subdomain_data.values())
+                see(mdg._interface_data.values())
+                see(mdg._boundary_grid_data.values())
+                x["data"] = {
+                    "sd": [[sd_of[id(s_)], tok[id(mdg.subdomain_data(s_))]] for s_ in present],
+                    "if": [[mg_of[id(i_)], tok[id(mdg.interface_data(i_))]]
+                           for i_ in mdg._interface_data],
+                    "bg": [[bgid(b_), tok[id(mdg.boundary_grid_data(b_))]]
+                           for b_ in mdg._boundary_grid_data]}
+                x["bounds"] = attempt(mdg.boundaries, lambda l: [bgid(b) for b in l])
+                d3 = len(steps) % 3
+                x["bounds_dim"] = [[d3, attempt(lambda: mdg.boundaries(dim=d3),
+                                                lambda l: [bgid(b) for b in l])]]
+                dsel = [None, 0, 1, 2][(len(steps) // 3) % 4]
+                x["int_cd"] = [[dsel, d3, attempt(
+                    lambda: mdg.interfaces(dim=dsel, codim=d3), mgs)]]
+                x["neigh"] = []
+                for n_, s_ in enumerate(present + absent_s):
+                    hi, lo = [(False, False), (True, False), (False, True),
+                              (True, True)][(len(steps) + n_) % 4]
+                    x["neigh"].append([sd_of[id(s_)], hi, lo, attempt(
+                        lambda: mdg.neighboring_subdomains(s_, only_higher=hi, only_lower=lo),
+                        sds)])
                 steps.append(x)
             return {"steps": steps}
         finally:
@@ -459,7 +536,8 @@ class C24(Prop):
             view = raw(x) + [x["subdomains"], x["interfaces"]]
             if cls == "rej":
                 if x["out"] == "done":
-                    return f"op {n} {o}: a call that must be rejected was accepted"
+                    return (f"op {n} {o}: a call that must be rejected was accepted "
+                            "[rejected-call-accepted]")
                 if prev is not None and view != prev:
                     return (f"op {n} {o}: rejected call ({x['out']}) changed the container "
                             "[rejected-call-mutates]")
@@ -470,14 +548,65 @@ class C24(Prop):
             if x["out"] != "done":
                 return f"op {n} {o}: well-formed call raised {x['out']} [wellformed-call-raises]"
             spec.apply(o)
-            why = self._consistent(spec, x)
+            cods = case.get("mg_codims") or [1] * len(case["mg_dims"])
+            why = self._consistent(spec, x, cods) or self._data_follow(spec, o, x)
             if why:
                 return f"after op {n} {o}: {why}"
             prev = view
         return None
 
     @staticmethod
-    def _consistent(spec, x):
+    def _data_follow(spec, o, x):
+        """The dictionary object stored for a grid is created once by the container and
+        follows the grid through replacements (tokens = creation order of the objects)."""
+        if not hasattr(spec, "tokS"):
+            spec.tokS, spec.tokI, spec.tokB, spec.used = {}, {}, {}, set()
+        sd = {tuple(k): t for k, t in x["data"]["sd"]}
+        itf = {tuple(k): t for k, t in x["data"]["if"]}
+        bgd = {tuple(k): t for k, t in x["data"]["bg"]}
+        bg_of = {tuple(sx): (None if b is None else tuple(b)) for sx, b in x["sd_bg"]}
+
+        def bgtok(g):
+            b = bg_of.get(g)
+            return None if b is None else bgd.get(b)
+
+        if o[0] == "add":
+            for g in o[1]:
+                g = tuple(g)
+                for t in [sd.get(g)] + ([bgtok(g)] if g[0] > 0 else []):
+                    if t is None or t in spec.used:
+                        return f"new grid {g} did not get a new data dictionary [data-dictionary]"
+                    spec.used.add(t)
+                spec.tokS[g] = sd[g]
+                if g[0] > 0:
+                    spec.tokB[g] = bgtok(g)
+        elif o[0] == "intf":
+            i = tuple(o[1])
+            if itf.get(i) is None or itf[i] in spec.used:
+                return f"new interface {i} did not get a new data dictionary [data-dictionary]"
+            spec.used.add(itf[i])
+            spec.tokI[i] = itf[i]
+        elif o[0] == "rep":
+            for old, new in o[2]:
+                old, new = tuple(old), tuple(new)
+                spec.tokS[new] = spec.tokS.pop(old)
+                if old in spec.tokB:
+                    spec.tokB[new] = spec.tokB.pop(old)
+        for g in spec.S:
+            if sd.get(g) != spec.tokS.get(g):
+                return (f"subdomain {g} carries dictionary #{sd.get(g)}, expected "
+                        f"#{spec.tokS.get(g)} [data-dictionary]")
+            if g[0] > 0 and bgtok(g) != spec.tokB.get(g):
+                return (f"boundary grid of {g} carries dictionary #{bgtok(g)}, expected "
+                        f"#{spec.tokB.get(g)} [data-dictionary]")
+        for i in spec.I:
+            if itf.get(i) != spec.tokI.get(i):
+                return (f"interface {i} carries dictionary #{itf.get(i)}, expected "
+                        f"#{spec.tokI.get(i)} [data-dictionary]")
+        return None
+
+    @staticmethod
+    def _consistent(spec, x, cods):
         S = sorted(spec.S, key=_key)
         I = sorted(spec.I, key=_key)
         tl = lambda l: [tuple(g) for g in l]
@@ -534,20 +663,55 @@ class C24(Prop):
             return "two subdomains share a boundary grid"
         if sorted(tl(x["bgs"])) != sorted(bgs):
             return f"boundary grids stored {x['bgs']} != boundary grids of the subdomains {bgs}"
+        # boundaries(): all boundary grids, sorted.  (When all subdomains are 0-d the code
+        # raises ValueError by design; nothing is demanded then.)
+        if bgs or not S:
+            want = sorted(bgs, key=_key)
+            if x["bounds"][0] != "ok" or tl(x["bounds"][1]) != want:
+                return f"boundaries() = {x['bounds']}, expected {want}"
+            for d, r in x["bounds_dim"]:
+                if r[0] != "ok" or tl(r[1]) != [g for g in want if g[0] == d]:
+                    return f"boundaries(dim={d}) = {r}"
+        for d, c, r in x["int_cd"]:
+            want = [g for g in I if (d is None or g[0] == d) and cods[g[1]] == c]
+            if r[0] != "ok" or tl(r[1]) != want:
+                return f"interfaces(dim={d}, codim={c}) = {r}, expected {want}"
+        for s, hi, lo, r in x["neigh"]:
+            s = tuple(s)
+            if hi and lo:
+                if r[0] == "ok":
+                    return "neighboring_subdomains(only_higher, only_lower) did not raise"
+                continue
+            if s not in spec.S:
+                continue
+            nb = [(p[1] if p[0] == s else p[0]) for p in spec.I.values() if s in p]
+            if hi:
+                nb = [g for g in nb if g[0] > s[0]]
+            if lo:
+                nb = [g for g in nb if g[0] < s[0]]
+            want = sorted(nb, key=_key)
+            if r[0] != "ok" or tl(r[1]) != want:
+                return f"neighboring_subdomains({s}, higher={hi}, lower={lo}) = {r}, expected {want}"
         return None
 
     # ------------------------------------------------------------------ tie
     def coq_case(self, case, res):
         steps = res["steps"]
-        obs = []
+        obs, dobs = [], []
+        kt = lambda l: _l(l, lambda p: f"KT {_g(p[0])} {p[1]}")
         for n, x in enumerate(steps):
             full = (n % 3 == 2 or n == len(steps) - 1 or x["out"] != "done"
                     or (n > 0 and steps[n - 1]["out"] != "done"))
             if full:
                 obs.append(f"Full {_obs(x)}")
+                dd = x["data"]
+                dobs.append(f"SomeD {kt(dd['sd'])} {kt(dd['if'])} {kt(dd['bg'])}")
             else:
                 obs.append("Brief " + ("Done" if x["out"] == "done" else f"(Raised {x['out']})"))
-        return f"agree {_l(case['ops'], _op)} {_l(obs)}"
+                dobs.append("NoD")
+        cods = case.get("mg_codims") or [1] * len(case["mg_dims"])
+        cm = _l([f"CM {_g([d, i])} {c}" for i, (d, c) in enumerate(zip(case["mg_dims"], cods))])
+        return f"agreeD {cm} {_l(case['ops'], _op)} {_l(obs)} {_l(dobs)}"
 
     def coq_diag(self, case, res):
         ops = _l(case["ops"], _op)
@@ -564,6 +728,10 @@ class C24(Prop):
             return "wellformed-call-raises"
         if "[rejected-call-mutates]" in why:
             return "rejected-call-mutates"
+        if "[rejected-call-accepted]" in why:
+            return "rejected-call-accepted"
+        if "[data-dictionary]" in why:
+            return "data-dictionary"
         return "container-inconsistent"
 
     def shrink(self, case, still_fails):
